@@ -823,6 +823,34 @@ pub fn check_main(args: &[String]) -> i32 {
         None
     };
 
+    // C19 layer (d): what the Miri job found (thorough tier; run by ./check before this process)
+    let miri: Option<serde_json::Value> = std::env::var("SIMCTL_MIRI_RESULT")
+        .ok()
+        .and_then(|p| std::fs::read_to_string(p).ok())
+        .and_then(|t| serde_json::from_str(&t).ok());
+    if prop == "C19" {
+        if let Some(m) = &miri {
+            if m["status"] == "violation" {
+                let log = m["log"].as_str().unwrap_or("").to_owned();
+                let tail: String = std::fs::read_to_string(&log)
+                    .map(|t| t.lines().rev().take(25).collect::<Vec<_>>().into_iter().rev().collect::<Vec<_>>().join("\n"))
+                    .unwrap_or_default();
+                let class = "C19:miri_threads".to_owned();
+                let scn = crate::scenario::Scenario::new(b"");
+                let mut c = Case::new("C19", "miri", seed, 0, scn);
+                c.expect = Some(Expect { class: class.clone(), message: tail.clone(), ..Default::default() });
+                Stats::bump(&mut stats.violations, &class, 1);
+                viols.push(VMsg {
+                    run: 0,
+                    class,
+                    message: format!("two threads sharing one Interpreter / DataParser under Miri: undefined behaviour, a data race or a result that differs from the sequential one (replay: tools/miri_threads.sh; log tail follows)\n{}", tail),
+                    minimised: false,
+                    case: c,
+                });
+            }
+        }
+    }
+
     // report
     let known = load_known();
     viols.sort_by(|a, b| a.class.cmp(&b.class).then(a.run.cmp(&b.run)));
@@ -906,7 +934,7 @@ pub fn check_main(args: &[String]) -> i32 {
     }
 
     let wall = t0.elapsed().as_secs_f64();
-    let evidence = build_evidence(&prop, &tier, seed, total, nw, &stats, &samples, &known_hit, &reported, rechecks.len(), mismatches, wall, &harness_errors, fid.as_ref());
+    let evidence = build_evidence(&prop, &tier, seed, total, nw, &stats, &samples, &known_hit, &reported, rechecks.len(), mismatches, wall, &harness_errors, fid.as_ref(), miri.as_ref());
     let _ = std::fs::create_dir_all(format!("{}/evidence", verif_home()));
     let ev_path = format!("{}/evidence/{}.json", verif_home(), prop);
     if let Err(e) = std::fs::write(&ev_path, serde_json::to_string_pretty(&evidence).unwrap()) {
@@ -946,6 +974,7 @@ fn build_evidence(
     wall: f64,
     harness_errors: &[String],
     fid: Option<&crate::fidelity::Sweep>,
+    miri: Option<&serde_json::Value>,
 ) -> serde_json::Value {
     let level = if prop == "C15" { "fault_enumeration" } else { "exploration" };
     let rare_zero: Vec<String> = crate::dispatch::expected_rare(prop)
@@ -991,6 +1020,10 @@ fn build_evidence(
             "violation_classes": stats.violations,
             "harness_errors": harness_errors,
             "real_vs_stub": crate::dispatch::real_vs_stub(),
+            "miri_threads": match miri {
+                Some(m) => m.clone(),
+                None => serde_json::json!({ "status": "not run", "note": "layer (d) runs in the thorough tier of C19 only" }),
+            },
             "real_binary_fidelity": match fid {
                 Some(f) => serde_json::json!({
                     "what": "the first cases of this check executed a second time by the binary built from /repo with the guard off (real file, real pipes, real main); stdout and exit status must equal the simulated ones byte for byte",
